@@ -15,14 +15,39 @@ Domain (each exclusion is necessary, see DESIGN.md and known_findings.json): zer
 reserved `{"__type__": "tuple"}` tag; datetime units s / ms / us / ns with the reference in years 1970–9999.
 That `json.loads(json.dumps(x)) == x` on this value domain (shortest-repr floats, exact ints, NaN / Infinity
 tokens) and that `ndarray.tolist()` / `np.array(list, dtype)` are inverse are third-party contracts: tested.
+* `reader_group_round_trip` — the groups the READER produces are inside that domain (discharged through the bridge
+  `Model/Bridge.lean`): for them the document decodes to exactly the group, at the chunk size of the reading call.
 -/
 import Alos2.Proofs.Codec
+import Alos2.Proofs.Bridge
+import Alos2.Props.C03
 
 namespace Alos2.C08
 
 theorem decode_encode (g : CGroup) (hg : g.InDomain domainFuel = true) (rpc : Nat) :
     decodeDoc rpc (encodeDoc g) = .ok (g.withRpc rpc) :=
   Alos2.decode_encode g hg rpc
+
+/-- "FOR ALL IMAGE GROUPS THE READER CAN PRODUCE": whenever `open_image` without a cache (the layout-based reader,
+    `Model/Product.lean`, tied to the real one by H9) succeeds on a file with at least one line record, all of one kind, and
+    the group — seen as the object the codec works on (`bridge`, tied to the real `encode(open_image(…))` by H11) — has its
+    instants at or after the epoch, the JSON document decodes to exactly that group, with the chunk size of the reading call -/
+theorem reader_group_round_trip (fr : FloatRepr) (root : String) (file : Bytes) (name : String) (rpc : Nat)
+    (gname : String) (g : ImageGroup) (cg : CGroup)
+    (h : openImageFile file name rpc = .ok (gname, g)) (hb : bridge fr root name gname g = some cg)
+    (header : Val) (recs : List Val) (hr : readImageRecords file rpc = .ok (header, recs)) (hn : 0 < recs.length)
+    (hk : (∀ r ∈ recs, IsLineRecord Gen.processedDataRecord r) ∨ (∀ r ∈ recs, IsLineRecord Gen.signalDataRecord r))
+    (hd : DatesOK g = true) (r' : Nat) :
+    cg.InDomain domainFuel = true ∧ decodeDoc r' (encodeDoc cg) = .ok (cg.withRpc r') := by
+  have hdom := open_image_in_domain fr root file name rpc gname g cg h hb header recs hr hn hk hd
+  exact ⟨hdom, Alos2.decode_encode cg hdom r'⟩
+
+/-- non-vacuity of the computable hypotheses: the two-record witness image of C03 opens, its group can be bridged, its
+    instants are after the epoch — and the bridged group is in the codec domain (kernel-evaluated) -/
+example :
+    ((openImageFile C03.witnessImage "IMG-HH-ALOS2290760600-191011-WWDR1.5RUA" 1).toOption.map (fun r =>
+      (DatesOK r.2, (bridge ⟨id, fun t _ => t, fun v _ => toString v ++ ".0"⟩ "/root" "IMG-HH-ALOS2290760600-191011-WWDR1.5RUA" r.1 r.2).map
+        (fun cg => cg.InDomain domainFuel)))) = some (true, some true) := by decide +kernel
 
 theorem tuple_tag (v : PyVal) (h : v.NoReservedTag = true) : postprocess (preprocess v) = v :=
   postprocess_preprocess v h
